@@ -47,6 +47,10 @@ func (c10) Gen(r *rand.Rand, tier string, run int) *core.Case {
 	c.Params["oneshots"] = []int{0, 0, 1, 2, 3}[r.IntN(5)]
 	c.Params["late"] = []int{0, 0, 1, 2}[r.IntN(4)]
 	c.Params["late_delay"] = r.IntN(40)
+	if r.IntN(3) == 0 {
+		c.Params["early"] = 1 + r.IntN(4)
+		c.Params["early_delay"] = r.IntN(60)
+	}
 	if r.IntN(8) == 0 {
 		// the receiver stops reading for a few simulated seconds while the
 		// senders are blocked in the middle of their messages, then resumes:
@@ -136,7 +140,7 @@ type c10state struct {
 func (c10) Run(c *core.Case, env *core.Env) {
 	st := &c10state{sent: map[int][]c10sent{}}
 	env.Set("st", st)
-	total := len(c.Ops)
+	total := len(c.Ops) + c.P("early", 0)
 	st.total = total
 	zzsim.SetNode("receiver")
 	// transport: 0 a connected pair handed to ConnEndPoint; 1-3 the address
@@ -275,6 +279,7 @@ func (c10) Run(c *core.Case, env *core.Env) {
 		}
 	}
 	var ea net.EndPoint
+	var earlyWG sync.WaitGroup
 	if lst != nil {
 		ready := make(chan struct{})
 		go func() {
@@ -302,9 +307,36 @@ func (c10) Run(c *core.Case, env *core.Env) {
 		a = env.NW.Conns()[0]
 		env.Probe(fmt.Sprintf("transport-%s", addr[transport][:4]))
 	} else {
-		net.EndPointFinalizer(net.ConnStream(b), install)
 		zzsim.SetNode("sender")
 		ea = net.ConnEndPoint(a)
+		zzsim.SetNode("harness")
+		if n := c.P("early", 0); n > 0 {
+			// one more sender, whose messages are on their way before the
+			// receiving end point exists: its handlers are registered by the
+			// finalizer, which is there so that nothing is missed
+			s := c.P("senders", 2)
+			earlyWG.Add(1)
+			go func() {
+				defer earlyWG.Done()
+				for i := 0; i < n; i++ {
+					id := uint32(s)<<16 | uint32(i)
+					payload := bytes.Repeat([]byte{byte(0x40 + s)}, 3*i)
+					hdr := net.NewHeader(uint8(1+i%8), uint32(s), uint32(i), uint32(3*i), id)
+					h := env.Invoke(s, "send", fmt.Sprintf("id=%#x type=%d len=%d (early)", id, 1+i%8, 3*i))
+					err := ea.Send(net.NewMessage(hdr, payload))
+					env.Return(h, "", err)
+					st.mu.Lock()
+					st.sent[s] = append(st.sent[s], c10sent{id, uint8(1 + i%8), uint32(s), payload, err})
+					st.mu.Unlock()
+				}
+			}()
+			for j := 0; j < c.P("early_delay", 0); j++ {
+				zzsim.Yield("h.early-sender")
+			}
+			env.Probe("messages-sent-before-the-receiving-endpoint-existed")
+		}
+		zzsim.SetNode("receiver")
+		net.EndPointFinalizer(net.ConnStream(b), install)
 		zzsim.SetNode("harness")
 		env.Probe(fmt.Sprintf("transport-pair-%d", transport))
 	}
@@ -383,6 +415,7 @@ func (c10) Run(c *core.Case, env *core.Env) {
 		}(s)
 	}
 	wg.Wait()
+	earlyWG.Wait()
 }
 
 func (c10) Check(c *core.Case, env *core.Env, res zzsim.Result, v *core.Verdict) {
